@@ -737,11 +737,12 @@ class ProbabilisticTensorDictModule(TensorDictModuleBase):
                 )
 
         elif interaction_type is InteractionType.MEAN:
-            if hasattr(dist, "mean"):
-                try:
-                    return dist.mean
-                except NotImplementedError:
-                    pass
+            try:
+                return dist.mean
+            except (AttributeError, NotImplementedError):
+                # no (closed-form) mean: empirical estimate. (`hasattr(dist, "mean")` would let the
+                # NotImplementedError of torch's base `Distribution.mean` through.)
+                pass
             if dist.has_rsample:
                 return dist.rsample((self.n_empirical_estimate,)).mean(0)
             else:
